@@ -75,6 +75,14 @@ def make_cases(chk, routes, lits, n, rich=False, all_lits=False, lit_names=False
         c.skipA = {i for i, t in enumerate(c.tokA) if not G.searchable(t, text)}
         c.skipB = {i for i, t in enumerate(c.tokB) if not G.searchable(t, text)}
         c.leaves = [(keys, leaf.idx, leaf.kind) for keys, leaf in G.pw_leaf_keys(c.cfg)]
+        # every fourth configuration is also run with its passwords supplied through the ENVIRONMENT (BURROW_SASL_X_PASSWORD
+        # ...), the layer main.go enables with viper.AutomaticEnv and which no configuration tree shows
+        c.env = None
+        if i % 4 == 0 and c.leaves:
+            docA, envA = G.env_variant(c.cfgA, c.leaves, c.tokA)
+            docB, envB = G.env_variant(c.cfgB, c.leaves, c.tokB)
+            if envA:
+                c.env = (docA, envA, docB, envB)
         c.world = G.world_for(chk.rng, c.cfg)
         c.reqs = G.build_requests(chk.rng, routes, c.cfg, c.world, lits, per_route=per_route, all_lits=all_lits)
         c.usernames = sorted({str(v.get("username")) for sec in G.PW_SECTIONS for v in c.cfgA.get(sec, {}).values()
@@ -122,6 +130,11 @@ def judge(chk, cases, rows, tag, count=True):
         for ti, (tcfg, _) in enumerate(c.taint):
             lines.append(G.case_line(tcfg, c.world, c.reqs))
             index.append((ci, "T%d" % ti))
+        if c.env:
+            lines.append(G.case_line(c.env[0], c.world, c.reqs, env=c.env[1]))
+            index.append((ci, "EA"))
+            lines.append(G.case_line(c.env[2], c.world, c.reqs, env=c.env[3]))
+            index.append((ci, "EB"))
     outs = run_lines(chk, lines, tag)
     per = {}
     for (ci, which), o in zip(index, outs):
@@ -130,9 +143,30 @@ def judge(chk, cases, rows, tag, count=True):
         per.setdefault(ci, {})[which] = o
     leaks, diffs, unexplained = [], [], []
     stats = {"pairs": 0, "taint_tokens_seen": 0, "taint_tokens_explained": 0}
+    stats["env_pairs"] = 0
     for ci, c in enumerate(cases):
         ra, rb = per[ci]["A"], per[ci]["B"]
         nA, nB = needles_for(c.tokA, c.usernames, c.skipA), needles_for(c.tokB, c.usernames, c.skipB)
+        if c.env:
+            # the same oracles on the runs whose passwords come from the environment
+            ea, eb = per[ci]["EA"], per[ci]["EB"]
+            for j, (m, p, b, meta) in enumerate(c.reqs):
+                stats["env_pairs"] += 1
+                for (resp, needles, toks, doc, env, side) in ((ea[j], nA, c.tokA, c.env[0], c.env[1], "cfg"),
+                                                             (eb[j], nB, c.tokB, c.env[2], c.env[3], "cfg'")):
+                    hit = G.find_tokens(resp, needles)
+                    if hit is not None:
+                        ti, form = hit
+                        var = [k for k, v in env.items() if v == str(toks[ti])]
+                        leaks.append(dict(case=ci, req=j, method=m, path=p, body=b, handler=meta["handler"], route=meta["route"],
+                                          params=meta["params"], token=toks[ti], form=form, password_key=var, config=doc, env=env,
+                                          world=c.world, side=side + " (password from the environment)", code=resp["code"],
+                                          excerpt=excerpt(G.response_blob(resp), G.leak_forms(toks[ti], c.usernames)[form])))
+                        break
+                if G.canon_response(ea[j], meta["handler"]) != G.canon_response(eb[j], meta["handler"]):
+                    diffs.append(dict(case=ci, req=j, method=m, path=p, body=b, handler=meta["handler"], route=meta["route"],
+                                      params=meta["params"], config=c.env[0], config2=c.env[2], env=c.env[1], env2=c.env[3],
+                                      world=c.world, a=ea[j], b=eb[j], leaves=[]))
         pw_paths = G.password_paths(c.cfg)
         if count:
             chk.count("config:passwords=%d" % min(c.info["n_pw"], 6))
@@ -211,7 +245,7 @@ def confirm_diffs(chk, diffs):
         if key in seen:
             continue
         seen.add(key)
-        line = G.case_line(d["config"], d["world"], [(d["method"], d["path"], d["body"], None)])
+        line = G.case_line(d["config"], d["world"], [(d["method"], d["path"], d["body"], None)], env=d.get("env"))
         lines += [line, line]
         order.append(d)
     outs = run_lines(chk, lines, "confirm")
@@ -237,7 +271,7 @@ def attribute_diff(chk, d):
     """Which password makes the difference: cfg with ONE password taken from cfg' at a time; the smallest configuration
     pair is kept for the replay."""
     d["culprits"] = []
-    if not d.get("leaves"):
+    if not d.get("leaves") or d.get("env"):
         return
     req = [(d["method"], d["path"], d["body"], None)]
     try:
@@ -253,6 +287,19 @@ def attribute_diff(chk, d):
         shrink_pair(chk, d)
     except Exception as e:  # attribution is a convenience
         chk.notes.append("attribution of a cfg/cfg' difference failed: %s" % e)
+
+
+def value_found(d):
+    """For a differs_* replay: does a culprit password occur verbatim in the response of its own run?  (Only indicative:
+    such passwords were excluded from the token search because another setting contains the same text.)"""
+    out = []
+    blob_a, blob_b = G.response_blob(d["a"]), G.response_blob(d["b"])
+    for c in d.get("culprits") or []:
+        for side, val, blob in (("cfg", c["value_under_cfg"], blob_a), ("cfg'", c["value_under_cfg_prime"], blob_b)):
+            forms = {"raw": str(val).encode("utf-8"), "json": G.go_json_escape(str(val)).encode("utf-8")}
+            hit = [f for f, b in forms.items() if b and b in blob]
+            out.append({"password_key": c["password_key"], "run": side, "value": val, "occurs_verbatim": bool(hit)})
+    return out
 
 
 def still_leaks(out, token, form, usernames):
@@ -332,12 +379,13 @@ def shrink_leak(chk, leak, usernames):
                 out[sec] = v
         return out
     try:
-        outs = run_lines(chk, [G.case_line(without(cfg, {c}), leak["world"], req) for c in cands], "shrink")
+        env = leak.get("env")
+        outs = run_lines(chk, [G.case_line(without(cfg, {c}), leak["world"], req, env=env) for c in cands], "shrink")
         ok = {c for c, o in zip(cands, outs) if still_leaks(o, leak["token"], leak["form"], usernames)}
         if not ok:
             return cfg
         small = without(cfg, ok)
-        o = run_lines(chk, [G.case_line(small, leak["world"], req)], "shrink2")[0]
+        o = run_lines(chk, [G.case_line(small, leak["world"], req, env=env)], "shrink2")[0]
         if still_leaks(o, leak["token"], leak["form"], usernames):
             return small
         first = sorted(ok, key=str)[0]
@@ -354,9 +402,11 @@ def report_leak(chk, leak, usernames, bad_rows, idx):
         "kind": "input", "probe": "httpserver/TestVerifProbeHttpcfg",
         "request": "%s %s" % (leak["method"], leak["path"]), "method": leak["method"], "path": leak["path"], "body": leak["body"],
         "handler": leak["handler"], "route": leak["route"], "params": leak["params"],
-        "config": small, "world": leak["world"], "token": leak["token"], "token_form": leak["form"],
+        "config": small, "environment": leak.get("env") or {}, "world": leak["world"], "token": leak["token"], "token_form": leak["form"],
         "password_key": leak["password_key"], "status": leak["code"], "response_excerpt": leak["excerpt"],
-        "oracle_verdict": "the response of the real handler contains the configured password (%s form)" % leak["form"],
+        "oracle_verdict": "VALUE FOUND: the response of the real handler contains the configured password itself (%s form)%s"
+                          % (leak["form"], "; the password was supplied through the environment, not the configuration file"
+                             if leak.get("env") else ""),
         "broken": "C18: response contains a configured password" + ("; table:ReadSets rows " + "; ".join(rel) if rel else ""),
         "cmd": "bin/check C18 --replay <this file>"})
 
@@ -394,12 +444,16 @@ def run(chk, failed):
             bad_rows, fields_ok = [], None
             chk.notes.append("diagnosis of the table obligations did not compile: " + diag_err)
     bad_feeds = [f for f in feeds if f["kind"] == "FOther"]
+    walked = set(G.parse_walked(G.gen_text("ReadSets")))
+    unwalked = sorted({"%s %s -> %s" % (m, p_, h) for (m, p_, h) in routes if h not in walked and h != "?"})
+    if unwalked:
+        chk.notes.append("route handlers the reads pass did not walk (C18_all_route_handlers_walked fails): %s" % unwalked)
     search = bool(failed)
 
     n = 120 if not chk.thorough else 3000
     batch = 60
     leaks, diffs, unexplained = [], [], []
-    stats = {"pairs": 0, "taint_tokens_seen": 0, "taint_tokens_explained": 0}
+    stats = {"pairs": 0, "taint_tokens_seen": 0, "taint_tokens_explained": 0, "env_pairs": 0}
     c0 = None
 
     def add(res):
@@ -432,9 +486,10 @@ def run(chk, failed):
                 break
     diffs = confirm_diffs(chk, [d for d in diffs if not any(l["case"] == d["case"] and l["req"] == d["req"] for l in leaks)]) \
         if not leaks else []
-    chk.evaluations += 2 * stats["pairs"]
-    chk.traces_validated += 2 * stats["pairs"]
+    chk.evaluations += 2 * (stats["pairs"] + stats["env_pairs"])
+    chk.traces_validated += 2 * (stats["pairs"] + stats["env_pairs"])
     chk.count("oracle:request-pairs", stats["pairs"])
+    chk.count("oracle:request-pairs-with-passwords-from-environment", stats["env_pairs"])
     chk.count("oracle:taint-tokens-seen", stats["taint_tokens_seen"])
     chk.count("oracle:taint-tokens-explained-by-table", stats["taint_tokens_explained"])
     for j in (1, len(c0.reqs) // 2, len(c0.reqs) - 3):
@@ -466,8 +521,15 @@ def run(chk, failed):
             "config_prime": d["config2"], "world": d["world"], "passwords_that_make_the_difference": d.get("culprits", []),
             "impl_output": G.response_blob(d["a"]).decode("utf-8", "replace")[:1500],
             "impl_output_prime": G.response_blob(d["b"]).decode("utf-8", "replace")[:1500],
-            "oracle_verdict": "two configurations that differ only in password values get different responses (the request is "
-                              "deterministic under cfg): the response depends on a password",
+            "environment": d.get("env") or {}, "environment_prime": d.get("env2") or {},
+            "value_found_in_response": value_found(d),
+            "oracle_verdict": "DEPENDS ON THE PASSWORD (non-interference), value itself not found by the token search: two "
+                              "configurations with the same keys, the same shape and a password PRESENT in both -- they differ only in "
+                              "the password's VALUE -- get different responses, and the request answers identically when repeated "
+                              "under cfg.  Presence/absence of a password cannot explain the difference (cfg' never adds or removes "
+                              "one); the response is a function of the value (a masked or partial copy, its length, a digest ...), "
+                              "i.e. it discloses information about the value.  See value_found_in_response for whether a password "
+                              "that could not be searched for (short, or equal to another setting) occurs verbatim.",
             "broken": "C18 non-interference on the implementation", "cmd": "bin/check C18 --replay <this file>"})
     if unexplained and not leaks:
         u = unexplained[0]
@@ -481,12 +543,15 @@ def run(chk, failed):
             "cmd": "bin/check C18 --replay <this file>"}, found_input=False)
     if failed and not leaks and not diffs:
         chk.violation("obligation", {
-            "kind": "table", "broken": "table:ReadSets" if (bad_rows or not bad_feeds) else "table:RespFields",
+            "kind": "table", "broken": ("table:RouteTable (a registration the translator cannot name) / ReadSets.walked"
+                                        if (rt_unknown or unwalked) and not bad_rows else
+                                        "table:ReadSets" if (bad_rows or not bad_feeds) else "table:RespFields"),
             "failed_obligations": [n_ for n_, _ in failed],
             "offending_rows": [row_text(r) for r in (bad_rows or [])],
             "offending_feeds": ["%s.%s in handler %s at %s is filled by %s" % (f["struct"], f["field"], f["handler"], f["pos"], f["detail"])
                                 for f in bad_feeds],
             "fields_obligation_holds": fields_ok,
+            "route_handlers_not_walked": unwalked, "unanalysed_registrations": ["%s: %s" % u for u in rt_unknown],
             "detail": [d[-1200:] for _, d in failed][:3],
             "note": "no request of the dynamic search (%d request pairs) made a handler show a password; the read-set / field-feed "
                     "obligation (or a theorem) no longer checks" % stats["pairs"]}, found_input=False)
@@ -502,6 +567,11 @@ def run(chk, failed):
         "the table is complete for the httpserver package: checked syntactically by the translator (fail-closed: anything it cannot "
         "analyse is a PUnknown/KUnknown/FOther row) and dynamically by the taint run; NOT covered: methods of values whose type is "
         "declared in another package of the module, reflection/unsafe, reading the configuration FILE or the environment directly",
+        "settings supplied through the ENVIRONMENT (main.go: viper.AutomaticEnv, prefix BURROW, '.'/'-' -> '_') are no leaf of any "
+        "configuration tree, so agree_except_passwords does not literally speak about them; the read table is about KEY STRINGS and "
+        "viper consults the environment for the same keys, so a handler whose rows avoid password keys cannot read such a password "
+        "either -- covered by argument and by the dynamic runs with BURROW_<SECTION>_<NAME>_PASSWORD (every fourth configuration), "
+        "not by a Coq statement",
         "viper lookup as modelled in Http.v: keys lower-cased (ASCII), split at '.', descent through nested maps; configuration keys "
         "themselves contain no '.' (the dynamic runs do include dotted module names)",
         "password paths are sasl.<n>.password and notifier.<n>.password (the only password keys read in /repo/core); credentials "
@@ -525,10 +595,12 @@ def replay(path):
         failed = chk.prove()
         print("obligations now:", "FAIL %s" % [n for n, _ in failed] if failed else "hold")
         return 1 if failed else 0
-    line = G.case_line(obj["config"], obj.get("world", {}), [(obj["method"], obj["path"], obj.get("body", ""), None)])
+    line = G.case_line(obj["config"], obj.get("world", {}), [(obj["method"], obj["path"], obj.get("body", ""), None)],
+                       env=obj.get("environment") or None)
     lines = [line]
     if "config_prime" in obj:
-        lines.append(G.case_line(obj["config_prime"], obj.get("world", {}), [(obj["method"], obj["path"], obj.get("body", ""), None)]))
+        lines.append(G.case_line(obj["config_prime"], obj.get("world", {}), [(obj["method"], obj["path"], obj.get("body", ""), None)],
+                                 env=obj.get("environment_prime") or None))
     outs = run_lines(chk, lines, "replay")
     if isinstance(outs[0], str):
         print("probe:", outs[0])
